@@ -1538,6 +1538,20 @@ func libModel(sc *ssa.Function, c *ssa.CallCommon, args []aval, site *ssa.Call) 
 			return cStr(strings.Trim(a, b)), true
 		}
 		return top, true
+	case "strings.Cut":
+		if len(args) == 2 && args[0].k == kConst && args[1].k == kConst && args[0].c.Kind() == constant.String && args[1].c.Kind() == constant.String {
+			a, b, ok := strings.Cut(constant.StringVal(args[0].c), constant.StringVal(args[1].c))
+			return aval{k: kTuple, tup: []aval{cStr(a), cStr(b), cBool(ok)}}, true
+		}
+		return aval{k: kTuple, tup: []aval{top, top, top}}, true
+	case "fmt.Sprint":
+		if len(args) == 1 && args[0].k == kSlice && len(args[0].elems) == 1 && args[0].elems[0].k == kConst && args[0].elems[0].c.Kind() == constant.String {
+			// a single string operand (also of a named string type without a String method of its own)
+			if d := args[0].elems[0].dyn; d == nil || !hasStringMethod(d) {
+				return cStr(constant.StringVal(args[0].elems[0].c)), true
+			}
+		}
+		return top, true
 	case "strings.CutSuffix", "strings.CutPrefix":
 		if len(args) == 2 && args[0].k == kConst && args[1].k == kConst && args[0].c.Kind() == constant.String && args[1].c.Kind() == constant.String {
 			a, b := constant.StringVal(args[0].c), constant.StringVal(args[1].c)
@@ -2108,4 +2122,14 @@ func getterModel(sc *ssa.Function, args []aval) (aval, bool) {
 		}
 	}
 	return aval{}, false
+}
+
+func hasStringMethod(t types.Type) bool {
+	ms := types.NewMethodSet(t)
+	for i := 0; i < ms.Len(); i++ {
+		if n := ms.At(i).Obj().Name(); n == "String" || n == "Error" || n == "Format" || n == "GoString" {
+			return true
+		}
+	}
+	return false
 }
